@@ -1,6 +1,7 @@
 package main
 
 import (
+	"os"
 	"fmt"
 	"go/ast"
 	"go/types"
@@ -240,6 +241,10 @@ func (f *frame) callOrdinal(name string) int {
 
 func (f *frame) callStatic(callee *ssa.Function, bindings []Val, args []Val, st *State, pos string) []Val {
 	sk := shortKey(callee)
+	// the instantiation suffix of a generic callee is not part of its name in contracts: (*participle.Parser[G]).parse[G]
+	if i := strings.LastIndex(sk, "["); i > 0 && strings.HasSuffix(sk, "]") && !strings.Contains(sk[i:], ")") {
+		sk = sk[:i]
+	}
 	ord := f.callOrdinal(sk)
 	res := f.callStatic1(callee, bindings, args, st, pos, sk, ord)
 	f.afterCallLets(sk, ord, args, res, st)
@@ -255,6 +260,7 @@ func (f *frame) afterCallLets(sk string, ord int, args, res []Val, st *State) {
 		if l.Callee != sk || l.Ordinal != ord {
 			continue
 		}
+		f.c.hookHits[fmt.Sprintf("call %s#%d", sk, ord)] = true
 		for h, body := range f.loopBody {
 			if body[f.curBlock] || h == f.curBlock {
 				panic(specErr("let %s: call %s#%d is inside a loop", l.Name, sk, ord))
@@ -267,7 +273,11 @@ func (f *frame) afterCallLets(sk string, ord int, args, res []Val, st *State) {
 		for i := range res {
 			env.vars[fmt.Sprintf("result%d", i)] = res[i]
 		}
-		f.c.ghosts[l.Name] = env.eval(l.Expr)
+		v := env.eval(l.Expr)
+		if old, ok := f.c.ghosts[l.Name]; ok && len(old.L) == len(v.L) {
+			v.T = old.T
+		}
+		f.c.ghosts[l.Name] = v
 	}
 }
 
@@ -508,9 +518,15 @@ func (f *frame) callSiteHooks(sk string, ord int, args []Val, pnames []string, s
 	if f.spec == nil {
 		return
 	}
+	if os.Getenv("VCGO_DEBUG_CALLS") != "" {
+		fmt.Fprintf(os.Stderr, "call site in %s: %s#%d top=%v\n", f.fn.Name(), sk, ord, f.top)
+	}
 	for _, a := range f.spec.Asserts {
 		if a.Callee != sk || a.Ordinal != ord {
 			continue
+		}
+		if f.top {
+			c.hookHits[fmt.Sprintf("call %s#%d", sk, ord)] = true
 		}
 		env := f.hereEnv(st)
 		for i := range args {
@@ -715,6 +731,12 @@ func (f *frame) applyContract(fs *FuncSpec, callee *ssa.Function, sig *types.Sig
 	for _, g := range fs.Ghosts {
 		env.vars[g.Name] = envPre.vars[g.Name]
 	}
+	// the callee's local ghosts (let ...) are values only the callee knows: unconstrained here
+	for _, l := range fs.Lets {
+		if _, ok := env.vars[l.Name]; !ok {
+			env.vars[l.Name] = c.freshVal("let_"+l.Name, c.eng.resolveType(env.pkg, l.Type))
+		}
+	}
 	// fresh results: their objects carry arbitrary (new) contents
 	for _, fr := range fs.Fresh {
 		v, ok := env.vars[fr]
@@ -807,8 +829,12 @@ func (f *frame) callUnknownFunc(fv Val, sig *types.Signature, args []Val, st *St
 		}
 		if fs != nil {
 			c.assumed["callback-contract:"+key] = true
-			f.callOrdinal(key)
-			return f.applyContract(fs, nil, sig, append([]Val{fv}, args...), st, pos, key)
+			ord := f.callOrdinal(key)
+			all := append([]Val{fv}, args...)
+			f.callSiteHooks(key, ord, all, nil, st, pos)
+			res := f.applyContract(fs, nil, sig, all, st, pos, key)
+			f.afterCallLets(key, ord, all, res, st)
+			return res
 		}
 	}
 	out := c.applyFuncTerm(fv, sig, args)
